@@ -1,4 +1,153 @@
-(* C08 - stub, replaced once Proofs/PedersenProofs.v is in place *)
-From Coq Require Import ZArith.
-Theorem c08_stub : (0 = 0)%Z. Proof. exact eq_refl. Qed.
-Print Assumptions c08_stub.
+(* C08 - Pedersen commitments are the stated group elements and tally exactly.
+   Only statements here; proofs are in Proofs/PedersenProofs.v.  Model: Model/Pedersen.v (tied to the
+   C code by the correspondence check of ./check C08).  [MF] = assumes the group premises MathFacts. *)
+From Coq Require Import ZArith List Bool Lia.
+Require Import Spec.Params Spec.Field Spec.Curve Spec.Bytes Spec.Sha256.
+Require Import Model.Base Model.Pedersen.
+Require Import Proofs.MathFacts Proofs.PedersenProofs Proofs.Toy.
+Import ListNotations.
+Local Open Scope Z_scope.
+Notation S := secp256k1.
+Lemma secp_p_gt_3 : 3 < cp S. Proof. reflexivity. Qed.
+
+(* commit(b, v, H) is exactly the encoding of b*G + v*H; it fails exactly when b >= n or that point is infinity *)
+Theorem commit_exact :
+  forall blind value gen,
+    pedersen_commit S blind value gen =
+      if cn S <=? be_val blind then [AInt 0]
+      else match padd S (pmul S (be_val blind mod cn S) (G S)) (pmul S value (gen_load gen)) with
+           | None => [AInt 0]
+           | R => [AInt 1; ABytes (pk_obj R)]
+           end.
+Proof. exact (commit_exact S). Qed.
+Print Assumptions commit_exact.
+
+Theorem commit_point_exact :
+  forall blind value gen R,
+    pedersen_commit_pt S blind value gen = Some R <->
+    (be_val blind < cn S /\ R = padd S (pmul S (be_val blind mod cn S) (G S)) (pmul S value (gen_load gen)) /\ R <> None).
+Proof. exact (commit_pt_exact S). Qed.
+Print Assumptions commit_point_exact.
+
+Theorem commit_rejects_overflow :
+  forall blind value gen, cn S <= be_val blind -> pedersen_commit S blind value gen = [AInt 0].
+Proof. exact (commit_rejects_overflow S). Qed.
+Print Assumptions commit_rejects_overflow.
+
+(* any blinding factor >= n makes the blind-sum helper return 0 (the illegal callback fires only for npositive > n) *)
+Theorem blind_sum_rejects_overflow :
+  forall blinds npositive, (exists b, In b blinds /\ cn S <= be_val b) ->
+    pedersen_blind_sum S blinds npositive = [AInt 0] \/ pedersen_blind_sum S blinds npositive = [AInt 0; AIll 1].
+Proof. exact (blind_sum_rejects_overflow S). Qed.
+Print Assumptions blind_sum_rejects_overflow.
+
+(* without overflow the helper returns (sum of the first npositive) - (sum of the rest) modulo n *)
+Theorem blind_sum_exact :
+  forall blinds i npos acc, (forall b, In b blinds -> be_val b < cn S) ->
+    exists r, blind_sum_loop S i npos acc blinds = Some r /\ r mod cn S = (acc + signed_sum i npos blinds) mod cn S.
+Proof. intros. apply (blind_sum_loop_exact S); [reflexivity|assumption]. Qed.
+Print Assumptions blind_sum_exact.
+
+Theorem blind_generator_blind_sum_rejects_overflow :
+  forall values gblinds blinds n_total n_inputs,
+    (exists v gb bf, In (v, gb, bf) (combine (combine values gblinds) blinds) /\ (cn S <= be_val gb \/ cn S <= be_val bf)) ->
+    pedersen_blind_generator_blind_sum S values gblinds blinds n_total n_inputs = [AInt 0] \/
+    pedersen_blind_generator_blind_sum S values gblinds blinds n_total n_inputs = [AInt 0; AIll 1].
+Proof. exact (bgbs_rejects_overflow S). Qed.
+Print Assumptions blind_generator_blind_sum_rejects_overflow.
+
+(* the commitment parser accepts iff prefix in {8,9}, x < p, and x^3 + 7 passes the square test *)
+Theorem commitment_parse_exact :
+  forall input,
+    pedersen_commitment_parse S input =
+      if (Z.land (nth 0 input 0) 0xFE =? 8) && (be_val (firstn 32 (skipn 1 input)) <? cp S)
+         && x_on_curve S (be_val (firstn 32 (skipn 1 input)))
+      then [AInt 1; ABytes (pk_obj (commit_point S (be_val (firstn 32 (skipn 1 input))) (Z.odd (nth 0 input 0))))]
+      else [AInt 0].
+Proof. exact (commitment_parse_exact S). Qed.
+Print Assumptions commitment_parse_exact.
+
+Theorem commitment_parse_rejects_off_curve :
+  forall input, x_on_curve S (be_val (firstn 32 (skipn 1 input))) = false -> pedersen_commitment_parse S input = [AInt 0].
+Proof. exact (commitment_parse_rejects_off_curve S). Qed.
+Print Assumptions commitment_parse_rejects_off_curve.
+
+Theorem commitment_parse_rejects_x_ge_p :
+  forall input, cp S <= be_val (firstn 32 (skipn 1 input)) -> pedersen_commitment_parse S input = [AInt 0].
+Proof. exact (commitment_parse_rejects_x_ge_p S). Qed.
+Print Assumptions commitment_parse_rejects_x_ge_p.
+
+Theorem commitment_parse_rejects_prefix :
+  forall input, 0 <= nth 0 input 0 < 256 -> nth 0 input 0 <> 8 -> nth 0 input 0 <> 9 -> pedersen_commitment_parse S input = [AInt 0].
+Proof. exact (commitment_parse_rejects_prefix S). Qed.
+Print Assumptions commitment_parse_rejects_prefix.
+
+(* whatever the parser accepts is a finite point ON THE CURVE with reduced coordinates *)
+Theorem commitment_parse_on_curve :
+  forall input o, 0 <= be_val (firstn 32 (skipn 1 input)) ->
+    pedersen_commitment_parse S input = [AInt 1; ABytes o] ->
+    exists Q, o = pk_obj Q /\ Q <> None /\ on_curve S Q = true.
+Proof. exact (commitment_parse_on_curve S secp_p_gt_3). Qed.
+Print Assumptions commitment_parse_on_curve.
+
+Theorem generator_parse_exact :
+  forall input,
+    generator_parse S input =
+      if (Z.land (nth 0 input 0) 0xFE =? 10) && (be_val (firstn 32 (skipn 1 input)) <? cp S)
+         && x_on_curve S (be_val (firstn 32 (skipn 1 input)))
+      then let x := be_val (firstn 32 (skipn 1 input)) in
+           let y := fst (fe_sqrt S (curve_rhs S x)) in
+           [AInt 1; ABytes (pk_obj (Some (x, if Z.odd (nth 0 input 0) then mneg (cp S) y else y)))]
+      else [AInt 0].
+Proof. exact (generator_parse_exact S). Qed.
+Print Assumptions generator_parse_exact.
+
+Theorem generator_parse_rejects_prefix :
+  forall input, 0 <= nth 0 input 0 < 256 -> nth 0 input 0 <> 10 -> nth 0 input 0 <> 11 -> generator_parse S input = [AInt 0].
+Proof. exact (generator_parse_rejects_prefix S). Qed.
+Print Assumptions generator_parse_rejects_prefix.
+
+Theorem generator_parse_on_curve :
+  forall input o, 0 <= be_val (firstn 32 (skipn 1 input)) ->
+    generator_parse S input = [AInt 1; ABytes o] ->
+    exists Q, o = pk_obj Q /\ Q <> None /\ on_curve S Q = true.
+Proof. exact (generator_parse_on_curve S secp_p_gt_3). Qed.
+Print Assumptions generator_parse_on_curve.
+
+(* [MF] tally returns 1 exactly when sum(positives) = sum(negatives) as curve points *)
+Theorem tally_exact :
+  MathFacts S -> forall pos neg,
+    Forall (oc S) (map (commit_load S) pos) -> Forall (oc S) (map (commit_load S) neg) ->
+    (pedersen_verify_tally S pos neg = [AInt 1] <->
+     psum S (map (commit_load S) pos) = psum S (map (commit_load S) neg)).
+Proof. exact (tally_exact S). Qed.
+Print Assumptions tally_exact.
+
+(* [MF] blinded derivation = unblinded derivation + blind*G.  Partial: the premise that the two
+   Shallue-van de Woestijne outputs are curve points is number theory about the map (not proved here). *)
+Theorem generate_blinded_eq_partial :
+  MathFacts S -> forall key32 blind32,
+    oc S (shallue_van_de_woestijne S (be_val (sha256 (prefix_1st ++ key32)) mod cp S)) ->
+    oc S (shallue_van_de_woestijne S (be_val (sha256 (prefix_2nd ++ key32)) mod cp S)) ->
+    snd (generator_generate_internal S key32 (Some blind32)) =
+      padd S (pmul S (be_val blind32 mod cn S) (G S)) (snd (generator_generate_internal S key32 None)).
+Proof. exact (generate_blinded_eq_partial S). Qed.
+Print Assumptions generate_blinded_eq_partial.
+
+Theorem generate_blinded_fails_iff_overflow :
+  forall key32 blind32,
+    fst (generator_generate_internal S key32 (Some blind32)) =
+      negb (cn S <=? be_val blind32) && fst (generator_generate_internal S key32 None).
+Proof. exact (generate_blinded_ret S). Qed.
+Print Assumptions generate_blinded_fails_iff_overflow.
+
+Theorem generator_h_is_sha256_of_G :
+  firstn 32 generator_h_bytes = sha256 (ser65 (G S)) /\ on_curve S (gen_load generator_h_bytes) = true.
+Proof. exact generator_h_is_sha256_of_G. Qed.
+Print Assumptions generator_h_is_sha256_of_G.
+
+(* non-vacuity: on the toy curve MathFacts is a theorem, so tally_exact holds there without premises *)
+Example tally_exact_toy :
+  forall pos neg, Forall (oc toy) (map (commit_load toy) pos) -> Forall (oc toy) (map (commit_load toy) neg) ->
+    (pedersen_verify_tally toy pos neg = [AInt 1] <-> psum toy (map (commit_load toy) pos) = psum toy (map (commit_load toy) neg)).
+Proof. exact (Proofs.PedersenProofs.tally_exact toy toy_MathFacts). Qed.
